@@ -32,3 +32,25 @@ Proof. do 2 eexists. split; [vm_compute; reflexivity|]. split; [discriminate|vm_
 (* and a mask expression that would NOT pass: dropping one operand's mask *)
 Example C04_ex_negative : rule_holds (ArgN 0) [0%nat; 1%nat] = false.
 Proof. vm_compute. reflexivity. Qed.
+
+(* reductions over nullable arrays: `x = where(x.null, FILL, x.values); Reduce*(x)` *)
+From ND Require Import Ndx.NullReduce.
+(* whatever FILL is and whatever the reduction does: arrays that differ only under nulls are handed
+   to the reduction as the same tensor *)
+Theorem C04_reductions_are_payload_independent : forall (A : Type) (fill : A) vals vals' nulls,
+  List.length vals = List.length vals' -> agree vals vals' nulls -> fill_nulls fill vals nulls = fill_nulls fill vals' nulls.
+Proof. exact @fill_payload_independent. Qed.
+Print Assumptions C04_reductions_are_payload_independent.
+(* with a fill that is neutral for the reduction the nulls are skipped: the result is the reduction of
+   the non-null values alone (any operator, any initial value, any length) *)
+Theorem C04_neutral_fill_skips_nulls : forall (A : Type) (op : A -> A -> A) fill e vals nulls,
+  (forall x, op fill x = x) -> List.length vals = List.length nulls ->
+  fold_right op e (fill_nulls fill vals nulls) = fold_right op e (non_null vals nulls).
+Proof. exact @fill_neutral_skips_nulls. Qed.
+Print Assumptions C04_neutral_fill_skips_nulls.
+Theorem C04_min_fill_is_neutral_in_range : forall hi vals nulls, List.length vals = List.length nulls -> Forall (fun x => x <= hi)%Z vals ->
+  fold_right Z.min hi (fill_nulls hi vals nulls) = fold_right Z.min hi (non_null vals nulls).
+Proof. exact min_skips_nulls. Qed.
+Theorem C04_max_fill_is_neutral_in_range : forall lo vals nulls, List.length vals = List.length nulls -> Forall (fun x => lo <= x)%Z vals ->
+  fold_right Z.max lo (fill_nulls lo vals nulls) = fold_right Z.max lo (non_null vals nulls).
+Proof. exact max_skips_nulls. Qed.
